@@ -256,7 +256,10 @@ def auxiliary_data(serdes, state):
     ### for i in range(1, state["next_parse_offset"]-12):
     ###     read_uint_lit(state, 1)
     ## Begin not in spec
-    serdes.bytes("bytes", state["next_parse_offset"] - PARSE_INFO_HEADER_BYTES)
+    # NB: A next_parse_offset pointing inside the parse_info header (invalid,
+    # but representable) leaves no room for any payload bytes
+    num_bytes = max(0, state["next_parse_offset"] - PARSE_INFO_HEADER_BYTES)
+    serdes.bytes("bytes", num_bytes)
     ## End not in spec
 
 
@@ -267,7 +270,10 @@ def padding(serdes, state):
     ### for i in range(1, state["next_parse_offset"]-12):
     ###     read_uint_lit(state, 1)
     ## Begin not in spec
-    serdes.bytes("bytes", state["next_parse_offset"] - PARSE_INFO_HEADER_BYTES)
+    # NB: A next_parse_offset pointing inside the parse_info header (invalid,
+    # but representable) leaves no room for any payload bytes
+    num_bytes = max(0, state["next_parse_offset"] - PARSE_INFO_HEADER_BYTES)
+    serdes.bytes("bytes", num_bytes)
     ## End not in spec
 
 
